@@ -66,7 +66,7 @@ type c16Class struct {
 // c16Build makes n classes above a root "object" (index 0); class i picks an ordered list of
 // 1..3 distinct bases among classes 0..i-1 symbolically.
 func c16Build(n int) ([]*c16Class, bool) {
-	root := &Type{Name: "object0", Dict: StringDict{}}
+	root := &Type{Name: "object0", Dict: StringDict{}, ObjectType: TypeType}
 	root.Mro = Tuple{root}
 	cs := []*c16Class{{t: root, lin: []int{0}, ok: true}}
 	for i := 1; i <= n; i++ {
@@ -85,7 +85,7 @@ func c16Build(n int) ([]*c16Class, bool) {
 			bases = append(bases, avail[p])
 			avail = append(append([]int{}, avail[:p]...), avail[p+1:]...)
 		}
-		t := &Type{Name: "C" + strconv.Itoa(i), Dict: StringDict{}}
+		t := &Type{Name: "C" + strconv.Itoa(i), Dict: StringDict{}, ObjectType: TypeType}
 		for _, b := range bases {
 			t.Bases = append(t.Bases, cs[b].t)
 		}
@@ -266,5 +266,78 @@ func VerifC16Binding() {
 		verifAssert(got == Object(fn), "a staticmethod binds nothing")
 	default:
 		verifAssert(got == Object(Int(7)), "a plain value is returned as is")
+	}
+}
+
+//verif:property C16
+//verif:expect built
+//verif:maxpaths 40000 400000
+func VerifC16Subtype() {
+	cs, ok := c16Build(verifBound(4, 5))
+	verifReach("built")
+	if !ok {
+		return
+	}
+	for j, d := range cs {
+		for i, c := range cs {
+			in := false
+			for _, idx := range d.lin {
+				if idx == i {
+					in = true
+				}
+			}
+			verifAssert(d.t.IsSubtype(c.t) == in, "isinstance / issubclass follow inheritance: a class is a subtype of exactly the classes in its linearisation")
+		}
+		_ = j
+	}
+}
+
+// class attributes are shared until shadowed: a later rebinding or deletion on any class
+// of the hierarchy is seen by the next read through the instance
+//
+//verif:property C16
+//verif:runinit github.com/go-python/gpython/py.init@type.go:1
+//verif:expect looked
+//verif:maxpaths 40000 400000
+func VerifC16RebindAfterRead() {
+	cs, ok := c16Build(3)
+	if !ok {
+		return
+	}
+	for _, t := range []*Type{BaseException, ExceptionType, AttributeError} {
+		_ = t.Ready()
+	}
+	cls := cs[len(cs)-1]
+	for i, c := range cs {
+		if verifChoice("has"+strconv.Itoa(i), 2) == 1 {
+			c.t.Dict["x"] = Int(100 + i)
+		}
+	}
+	inst := &c16Inst{t: cls.t, dict: StringDict{}}
+	_, _ = GetAttrString(inst, "x") // a first read (may fill any lookup cache)
+	k := verifChoice("target", len(cs))
+	if verifChoice("delete", 2) == 1 {
+		if _, has := cs[k].t.Dict["x"]; !has {
+			return
+		}
+		err := DeleteAttrString(cs[k].t, "x")
+		verifAssert(err == nil, "deleting a class attribute works")
+	} else {
+		_, err := SetAttrString(cs[k].t, "x", Int(777))
+		verifAssert(err == nil, "setting a class attribute works")
+	}
+	verifReach("looked")
+	got, err := GetAttrString(inst, "x")
+	want := Object(nil)
+	for _, idx := range cls.lin {
+		if v, has := cs[idx].t.Dict["x"]; has {
+			want = v
+			break
+		}
+	}
+	if want == nil {
+		verifAssert(err != nil && IsException(AttributeError, err), "a deleted attribute is gone for the instances of subclasses too")
+	} else {
+		verifAssert(err == nil && got == want, "a read after a class attribute changed sees the change")
 	}
 }
